@@ -125,6 +125,20 @@ def fsClone (ovl : Bytes → Nat → Nat → Nat → Bytes) (fs : FS) (src : Src
     | none => .err
     | some t => .ok { fs2 with target := t } (c1 + c2) al.toNat (fz1 || fz2)
 
+/-- the target after the head and tail copies of `fileSeedSegment.clone`, i.e. what a refused
+    `CloneRange` leaves behind (only meaningful when the guard of `fsClone` is false) -/
+def fsCloneHeadTail (ovl : Bytes → Nat → Nat → Nat → Bytes) (fs : FS) (src : Src) (so len dO bs : Nat) : FS × Bool :=
+  let sas := Gen.fsClone_srcAlignStart (u so) (u len) (u dO) (u bs) 0 0 0 0 0
+  let sae := Gen.fsClone_srcAlignEnd (u so) (u len) (u dO) (u bs) sas 0 0 0 0
+  let das := Gen.fsClone_dstAlignStart (u so) (u len) (u dO) (u bs) sas sae 0 0 0
+  let al := Gen.fsClone_alignLength (u so) (u len) (u dO) (u bs) sas sae das 0 0
+  let dae := Gen.fsClone_dstAlignEnd (u so) (u len) (u dO) (u bs) sas sae das al 0
+  let (a1, l1, d1) := Gen.fsClone_headCopy (u so) (u len) (u dO) (u bs) sas sae das al dae
+  let (fs1, _, fz1) := copyInto ovl fs src a1.toNat l1.toNat d1.toNat
+  let (a2, l2, d2) := Gen.fsClone_tailCopy (u so) (u len) (u dO) (u bs) sas sae das al dae
+  let (fs2, _, fz2) := copyInto ovl fs1 src a2.toNat l2.toNat d2.toNat
+  (fs2, fz1 || fz2)
+
 structure FSeg where
   src : Src
   chunks : List IChunk
@@ -139,7 +153,8 @@ def FSeg.size (s : FSeg) : Nat :=
   | some a, some b => b.start + b.size - a.start
   | _, _ => 0
 
-/-- `fileSeedSegment.WriteInto` -/
+/-- `fileSeedSegment.WriteInto`: wrong size → error; no cloning or misaligned → copy; else clone,
+    and a plain copy of the whole range if the clone is refused -/
 def FSeg.writeInto (ovl : Bytes → Nat → Nat → Nat → Bytes) (s : FSeg) (fs : FS) (offset length bs : Nat) : WRes :=
   if Gen.fsWrite_wrongSize s.canReflink (u s.srcStart) (u offset) (u length) (u bs) (u s.size) then .err
   else if Gen.fsWrite_useCopy s.canReflink (u s.srcStart) (u offset) (u length) (u bs) (u s.size) then
@@ -148,7 +163,14 @@ def FSeg.writeInto (ovl : Bytes → Nat → Nat → Nat → Bytes) (s : FSeg) (f
     .ok fs' c 0 fz
   else
     let (a, l, d) := Gen.fsWrite_cloneArgs s.canReflink (u s.srcStart) (u offset) (u length) (u bs) (u s.size)
-    fsClone ovl fs s.src a.toNat l.toNat d.toNat bs
+    match fsClone ovl fs s.src a.toNat l.toNat d.toNat bs with
+    | .err =>
+      -- the file system refused the clone (after the head and tail copies): copy the whole range
+      let (fsr, fz0) := fsCloneHeadTail ovl fs s.src a.toNat l.toNat d.toNat bs
+      let (a', l', d') := Gen.fsWrite_cloneFallbackArgs s.canReflink (u s.srcStart) (u offset) (u length) (u bs) (u s.size)
+      let (fs', c, fz) := copyInto ovl fsr s.src a'.toNat l'.toNat d'.toNat
+      .ok fs' c 0 (fz0 || fz)
+    | r => r
 
 /-- `nullChunkSection.copy`: zeros into the target -/
 def zeroFill (fs : FS) (off len : Nat) : FS := { fs with target := writeAt fs.target off (zeros len) }
